@@ -1,4 +1,5 @@
 import TF.Proofs.MerkleUnique
+import TF.Proofs.GenBridgeMerkleIndex
 /-!
 # C04 — Merkle inclusion-proof verification is sound, exact and total
 
@@ -192,5 +193,74 @@ theorem into_paths_authenticate {p : Proof D} {paths : List (List D)} (hp : into
       Spec.refRoot H p = some (foldPath H (x.1 + 2^p.height) x.2 path) :=
   paths_fold H hp
 example : foldPath Hx (2 + 2^2) 3 [4, 14] = 193 := by decide +kernel
+
+end TF.C04
+
+/-! ## regenerated-from-source bridge: Merkle index arithmetic (P03)
+
+`MerkleTree::{num_leafs, height, node, leaf}` (with the `checked_add` of fix F1) and `PartialMerkleTree::num_leafs` (the
+height check against `MAX_TREE_HEIGHT` and the shift) are **regenerated from the source on every run**
+(`TF/Gen/MerkleIndex.lean`, `TF.Gen.Loops.mt_*` / `pmt_num_leafs`, written by `tools/rs2lean_conv.py`; every function `f` has
+a twin `f_ok`, true iff nothing overflows / panics).  A `MerkleTree` is its node vector, digests are opaque (five words,
+never inspected): the model's `Tree D` at `D = List Nat`; `PartialMerkleTree` is seen through `tree_height` only.
+`resExcept` prints a model outcome as the source's `Result<_, MerkleTreeError>` (error = variant name).
+Proofs: `TF/Proofs/GenBridgeMerkleIndex.lean`. -/
+namespace TF.C04
+open TF.Gen TF.Merkle TF.GenBridge.MerkleIndex
+
+/-- regenerated accessors = hand model, for every node vector and every index: `num_leafs`, `node`, `leaf` (incl. indices
+    where `first_leaf + index` overflows `usize`) cannot panic; `height` is `ilog2(num_leafs)` and panics exactly on a tree
+    without leafs -/
+theorem gen_tree_accessors_eq_model (ns : List (List Nat)) (i : Nat) :
+    Loops.mt_num_leafs ns = (Tree.mk ns).numLeafs ∧ Loops.mt_num_leafs_ok ns = true ∧
+    Loops.mt_node ns i = (Tree.mk ns).node i ∧ Loops.mt_node_ok ns i = true ∧
+    Loops.mt_leaf ns i = (Tree.mk ns).leaf i ∧ Loops.mt_leaf_ok ns i = true ∧
+    (Tree.mk ns).height = (if Loops.mt_height_ok ns then .ok (Loops.mt_height ns) else .panic) ∧
+    (Loops.mt_height_ok ns = true ↔ 2 ≤ ns.length) :=
+  ⟨rfl, rfl, rfl, rfl, (gen_leaf ns i).1, (gen_leaf ns i).2, (gen_height ns).1, (gen_height ns).2⟩
+example : Loops.mt_leaf [[0], [1], [2], [3]] 1 = some [3] ∧ Loops.mt_leaf [[0], [1], [2], [3]] 2 = none ∧
+    Loops.mt_leaf [[0], [1], [2], [3]] (2^64 - 2) = none ∧ Loops.mt_height [[0], [1], [2], [3]] = 1 ∧
+    Loops.mt_height_ok [[0]] = false ∧ Loops.mt_node [[0], [1], [2], [3]] 4 = none := by decide +kernel
+
+/-- regenerated `PartialMerkleTree::num_leafs` = hand model, for every height in `usize` or beyond: `TreeTooHigh` exactly
+    above `MAX_TREE_HEIGHT`, otherwise `2^height`; the shift cannot overflow -/
+theorem gen_partial_num_leafs_eq_model (h : Nat) :
+    Loops.pmt_num_leafs h = resExcept (numLeafs h) ∧ Loops.pmt_num_leafs_ok h = true ∧
+    (h ≤ MAX_TREE_HEIGHT → Loops.pmt_num_leafs h = .ok (2^h)) ∧
+    (MAX_TREE_HEIGHT < h → Loops.pmt_num_leafs h = .error "TreeTooHigh") := by
+  refine ⟨(gen_pmt_num_leafs h).1, (gen_pmt_num_leafs h).2, fun hh => ?_, fun hh => ?_⟩
+  · rw [(gen_pmt_num_leafs h).1]
+    have h31 : h ≤ 31 := hh
+    unfold numLeafs shl1
+    rw [if_neg (by omega), if_pos (by omega)]; rfl
+  · rw [(gen_pmt_num_leafs h).1]
+    unfold numLeafs
+    rw [if_pos hh]; rfl
+example : Loops.pmt_num_leafs 31 = .ok 2147483648 ∧ Loops.pmt_num_leafs 32 = .error "TreeTooHigh" ∧
+    Loops.pmt_num_leafs (2^64 - 1) = .error "TreeTooHigh" ∧ MAX_TREE_HEIGHT = 31 := by decide +kernel
+
+/-- **transfer** of `accessors_total` to the code as it is in the source now: on the node vector of a Merkle tree over
+    `2^h` leaf digests (`h ≤ MAX_TREE_HEIGHT`, any hash on word lists) the regenerated `leaf` returns exactly the leafs and
+    `None` beyond them (never an inner node, also where the index addition would overflow), `num_leafs` is the number of
+    leafs, `height` is `h` and cannot panic -/
+theorem gen_accessors_transfer (Hw : List Nat → List Nat → List Nat) (filler : List Nat) {ds : List (List Nat)} {h : Nat}
+    {ns : List (List Nat)} (hn : ds.length = 2^h) (hh : h ≤ MAX_TREE_HEIGHT) (hm : Spec.IsMerkleTree Hw filler ds ns) :
+    (∀ i, Loops.mt_leaf ns i = if i < ds.length then ds[i]? else none) ∧
+    (∀ i, ds.length ≤ i → Loops.mt_leaf ns i = none) ∧
+    Loops.mt_num_leafs ns = ds.length ∧ Loops.mt_height_ok ns = true ∧ Loops.mt_height ns = h := by
+  have acc := accessors_total Hw filler (t := Tree.mk ns) hn hh hm
+  have hl : ns.length = 2 * ds.length := hm.1
+  have hnl : Loops.mt_num_leafs ns = ds.length := by
+    show ns.length / 2 = ds.length
+    omega
+  have hpos : 0 < 2^h := Nat.pos_of_ne_zero (by simp)
+  refine ⟨fun i => ?_, fun i hi => ?_, hnl, ?_, ?_⟩
+  · rw [(gen_leaf ns i).1]; exact acc.1 i
+  · rw [(gen_leaf ns i).1]; exact acc.2.1 i hi
+  · exact (gen_height ns).2.mpr (by omega)
+  · show Nat.log2 (Loops.mt_num_leafs ns) = h
+    rw [hnl, hn, Nat.log2_two_pow]
+example : ([[1], [2]] : List (List Nat)).length = 2^1 ∧ 1 ≤ MAX_TREE_HEIGHT ∧
+    Loops.mt_leaf [[0], [9], [1], [2]] 1 = some [2] ∧ Loops.mt_height [[0], [9], [1], [2]] = 1 := by decide +kernel
 
 end TF.C04
